@@ -807,7 +807,38 @@ func clntGenC07(r *rng, thorough bool, f func(c *clntCase)) {
 
 // ---------- C08 ----------
 
+// clntGenTrickle: a device that delivers one byte per read with a real gap shorter than the read
+// timeout and never completes the frame in time: the TOTAL read timeout must end the call (the
+// script's timer step), and it must do so within 3 x the timeout.  After the timer step the script
+// goes on trickling, for a client that would (wrongly) keep reading.
+func clntGenTrickle(r *rng, f func(c *clntCase)) {
+	const gap = 20 * time.Millisecond
+	i := 0
+	for kind := 0; kind < 3; kind++ {
+		for _, fc := range []int{3, 4, 1, 23} {
+			for rep2 := 0; rep2 < 2; rep2++ {
+				q := clntMkRq(r, fc, clntFrOf(kind), 3) // a reply of 250+ bytes
+				rep := q.reply(r)
+				b := rep.bytes
+				var steps []clntStep
+				for j, x := range b[:60] { // far from the complete reply
+					st := clntData([]byte{x})
+					st.gap = gap
+					if j == 5 {
+						st.timer = true // by now the total timer has fired (the read before blocks past it)
+					}
+					steps = append(steps, st)
+				}
+				i++
+				f(&clntCase{kind: kind, conn: true, flusher: i%2 == 0, hooks: i%2 == 0, rq: q,
+					sc: clntScript{steps: steps, maxElapsed: 3 * clntTimerT}, want: rep.want})
+			}
+		}
+	}
+}
+
 func clntGenC08(r *rng, thorough bool, f func(c *clntCase)) {
+	clntGenTrickle(r, f)
 	clntGenOversize(r, f)
 	clntGenExtended(r, []int{0, 1, 2}, f)
 	i := 0
